@@ -30,9 +30,10 @@ Fixpoint tbl_lookup (k : bytes) (l : list V) : option (option bytes) :=
 Definition tbl_fn (l : list V) (k : bytes) : option bytes := match tbl_lookup k l with Some r => r | None => None end.
 Definition tbl_fn_total (l : list V) (k : bytes) : bytes := match tbl_fn l k with Some r => r | None => s2b "<missing>" end.
 
-(** oracles: [decompress; decode; encode; compress] *)
+(** oracles: [decompress; decode; encode; compress; too-big keys] *)
 Definition oracles_of (v : V) : oracles :=
-  mkOr (tbl_fn (vl (vnth 0 v))) (tbl_fn (vl (vnth 1 v))) (tbl_fn (vl (vnth 2 v))) (tbl_fn_total (vl (vnth 3 v))).
+  mkOr (tbl_fn (vl (vnth 0 v))) (tbl_fn (vl (vnth 1 v))) (tbl_fn (vl (vnth 2 v))) (tbl_fn_total (vl (vnth 3 v)))
+       (fun k => existsb (bytes_eqb k) (vsl (vnth 4 v))).
 
 Definition up_of (v : V) : up := mkUp (vsl (vnth 0 v)) (ecls_of (vs (vnth 1 v))) (vb (vnth 2 v)).
 
